@@ -597,16 +597,20 @@ func (c *ReverseExpandQuery) callCheckForCandidate(
 	info checkCandidateInfo,
 ) error {
 	info.resolutionMetadata.CheckCounter.Add(1)
-	handlerFunc := c.localCheckResolver.CheckRewrite(ctx,
-		&graph.ResolveCheckRequest{
-			StoreID:              info.req.StoreID,
-			AuthorizationModelID: c.typesystem.GetAuthorizationModelID(),
-			TupleKey:             tuple.NewTupleKey(tmpResult.Object, info.relation, info.req.User.String()),
-			ContextualTuples:     info.req.ContextualTuples,
-			Context:              info.req.Context,
-			Consistency:          info.req.Consistency,
-			RequestMetadata:      graph.NewCheckRequestMetadata(),
-		}, info.userset)
+	// NewResolveCheckRequest computes the invariant cache key (store, model, context, contextual
+	// tuples); a struct literal leaves it zero and the check cache then ignores those inputs.
+	checkReq, err := graph.NewResolveCheckRequest(graph.ResolveCheckRequestParams{
+		StoreID:              info.req.StoreID,
+		AuthorizationModelID: c.typesystem.GetAuthorizationModelID(),
+		TupleKey:             tuple.NewTupleKey(tmpResult.Object, info.relation, info.req.User.String()),
+		ContextualTuples:     info.req.ContextualTuples,
+		Context:              info.req.Context,
+		Consistency:          info.req.Consistency,
+	})
+	if err != nil {
+		return err
+	}
+	handlerFunc := c.localCheckResolver.CheckRewrite(ctx, checkReq, info.userset)
 	tmpCheckResult, err := handlerFunc(ctx)
 	if err != nil {
 		operation := "intersection"
